@@ -3,6 +3,7 @@ package corr
 import (
 	"errors"
 	"fmt"
+	"math"
 	"os"
 	"os/exec"
 	"reflect"
@@ -132,6 +133,71 @@ func OpStaticCmp(o *Out, s SrcSpec, op int, right string) {
 		out = "set" + b01(r0)
 	}
 	o.Op("XC | " + s.Toks() + " | " + strconv.Itoa(op) + " " + SegTok(right) + " | " + out)
+}
+
+// fclass names a float for the model's special-value comparison: nan, pinf, ninf, or f<fixed point> (2^-20 units;
+// callers pass only values that are exact in that unit).
+func fclass(f float64) string {
+	switch {
+	case f != f:
+		return "nan"
+	case math.IsInf(f, 1):
+		return "pinf"
+	case math.IsInf(f, -1):
+		return "ninf"
+	}
+	return "f" + strconv.FormatInt(int64(f*1048576), 10)
+}
+
+// OpStaticCmpSpecial emits one `XF` record: Compare on a float source holding an IEEE special value (or a small exact
+// one) against an operand text; the operand's class comes from the real strconv.ParseFloat (oracle), `err` when
+// it reports a syntax or range error.
+func OpStaticCmpSpecial(o *Out, kind, form string, left float64, op int, right string) {
+	var src any
+	switch kind + form {
+	case "float64v":
+		src = left
+	case "float64p":
+		src = &left
+	case "float32v":
+		src = float32(left)
+	default:
+		f := float32(left)
+		src = &f
+	}
+	run := func(init bool) (bool, string) {
+		res := init
+		st := "ok"
+		func() {
+			defer func() {
+				if r := recover(); r != nil {
+					st = "panic"
+				}
+			}()
+			if err := staticIns.Compare(src, inspector.Op(op), right, &res); err != nil {
+				st = "err"
+			}
+		}()
+		return res, st
+	}
+	r0, s0 := run(false)
+	r1, s1 := run(true)
+	out := "nondet"
+	switch {
+	case s0 == "panic" || s1 == "panic":
+		out = "panic"
+	case s0 == "err" && s1 == "err":
+		out = "err"
+	case s0 == "ok" && s1 == "ok" && !r0 && r1:
+		out = "untouched"
+	case s0 == "ok" && s1 == "ok" && r0 == r1:
+		out = "set" + b01(r0)
+	}
+	rc := "err"
+	if rv, err := strconv.ParseFloat(right, 0); err == nil {
+		rc = fclass(rv)
+	}
+	o.Op("XF | " + kind + " " + form + " " + fclass(left) + " | " + strconv.Itoa(op) + " " + rc + " | " + out)
 }
 
 // OpStaticDeq emits one `XD` record: DeepEqual in both orders.
